@@ -10,8 +10,14 @@ Decided statically (collision resistance of SHA-256 assumed):
   C09.fromparts Node::from_parts: arm V computes Cmr::v from the fields of V, in order
   C09.hascmr    every HasCmr::cmr impl returns the stored root (or delegates to another cmr())
   C09.iv        Cmr::v hashes from V_IV; the IVs are pairwise distinct
+  C09.entropy   Cmr::fail lets all 64 bytes of the fail entropy reach the hash: if it slices the entropy with constant
+                ranges, their union is 0..64 (different entropies are different committed structures)
+  C09.print     the human-readable printer (src/human_encoding, the text Forest::parse reads back) writes, for an
+                assertl / assertr node, the hidden branch root stored in that node (the variant's Cmr field), not the
+                node's own or any other root
 """
 import vcc
+import facts as fm
 from facts import Terms, leaves, calls_in, show, enum_switches, short
 
 CMR = "simplicity::merkle::cmr::Cmr::"
@@ -72,6 +78,8 @@ def run(ctx, rep):
     rep.rule("C09.fromparts", "Node::from_parts arm V = Cmr::v(fields of V in order)")
     rep.rule("C09.hascmr", "HasCmr::cmr impls return the stored root")
     rep.rule("C09.iv", "Cmr::v starts from V_IV; IVs pairwise distinct")
+    rep.rule("C09.entropy", "Cmr::fail hashes all 64 bytes of the fail entropy (constant slices of it cover 0..64)")
+    rep.rule("C09.print", "the human-readable printer writes the hidden branch root stored in an assertl/assertr node, not another root")
 
     methods = [f for f in F.fns.values() if f.impl_trait in vcc.CONSTRUCTIBLE_TRAITS and f.name in vcc.VARIANT_OF]
     rep.count("constructible_impl_methods", len(methods))
@@ -337,7 +345,114 @@ def run(ctx, rep):
             rep.violation("C09.iv", "Cmr::" + alg, "Cmr::%s uses IVs %s, expected %s" % (alg, sorted(short(u) for u in used), short(want)), f.where())
         else:
             rep.ok("C09.iv", "Cmr::%s uses %s_IV" % (alg, alg.upper()), None)
+    entropy_cover(F, rep)
+    printer(F, rep)
     return FINISH
+
+
+def _range_of(t, n):
+    """constant sub-range [lo, hi) of 0..n denoted by a std::ops::Range* literal, or None"""
+    if not (isinstance(t, tuple) and t and t[0] == "adt" and t[1].startswith("std::ops::Range")):
+        return None
+    d = dict(zip(t[3], t[4]))
+    kind = t[1].rsplit("::", 1)[1]
+
+    def c(x):
+        return x[1] if isinstance(x, tuple) and x and x[0] == "int" else None
+    if kind == "RangeFull":
+        return (0, n)
+    if kind == "RangeTo":
+        return (0, c(d.get("end"))) if c(d.get("end")) is not None else None
+    if kind == "RangeFrom":
+        return (c(d.get("start")), n) if c(d.get("start")) is not None else None
+    if kind == "Range":
+        lo, hi = c(d.get("start")), c(d.get("end"))
+        return (lo, hi) if lo is not None and hi is not None else None
+    if kind == "RangeToInclusive":
+        return (0, c(d.get("end")) + 1) if c(d.get("end")) is not None else None
+    return None
+
+
+def entropy_cover(F, rep):
+    """distinct fail entropies must give distinct roots: every byte of the 64-byte entropy reaches the hash.  Decided for the
+    spelling that can lose bytes, i.e. constant slices of the entropy: their union must be 0..64 (no slicing: whole use)."""
+    f0 = F.fn(CMR + "fail")
+    if f0 is None:
+        rep.anchor("C09.entropy", CMR + "fail")
+        return
+    f = F.inlined(f0, ("index", "zz_update_64", "zz_update_2x32", "to_byte_array"))
+    T = Terms(f)
+    ranges, unknown = [], 0
+    for cs in f.calls():
+        if cs.name not in ("index", "index_mut", "get", "split_at") or len(cs.args) < 2:
+            continue
+        base = T.operand(cs.args[0])
+        if 1 not in vcc.param_roots(base, fm):
+            continue
+        if cs.name == "split_at":
+            ranges.append((0, 64))
+            continue
+        r = _range_of(T.operand(cs.args[1]), 64)
+        if r is None:
+            unknown += 1
+        else:
+            ranges.append(r)
+    if unknown:
+        rep.note("Cmr::fail slices the entropy with a non-constant range: coverage not decided")
+        return
+    if not ranges:
+        uses = [cs for cs in f.calls() if cs.args and any(1 in vcc.param_roots(T.operand(a), fm) for a in cs.args)]
+        if uses:
+            rep.ok("C09.entropy", "Cmr::fail passes the entropy whole", ", ".join(sorted({cs.name for cs in uses})))
+        else:
+            rep.violation("C09.entropy", "fail:unused", "Cmr::fail does not use its entropy argument", f0.where())
+        return
+    covered = [False] * 64
+    for lo, hi in ranges:
+        for i in range(max(lo, 0), min(hi, 64)):
+            covered[i] = True
+    missing = [i for i, cv in enumerate(covered) if not cv]
+    if missing:
+        rep.violation("C09.entropy", "fail:coverage", "Cmr::fail slices the entropy as %s: bytes %d..%d never reach the hash, so fail nodes whose entropies "
+                      "differ only there get the same root" % (sorted(set(ranges)), missing[0], missing[-1] + 1), f0.where())
+    else:
+        rep.ok("C09.entropy", "Cmr::fail: slices %s cover the 64 entropy bytes" % sorted(set(ranges)), None)
+
+
+def printer(F, rep):
+    want = {"AssertL": "1", "AssertR": "0"}
+    n = 0
+    seen_keys = set()
+    for f0 in sorted(F.fns.values(), key=lambda x: x.path):
+        if not f0.path.startswith("simplicity::human_encoding::") or f0.path.startswith("simplicity::human_encoding::parse"):
+            continue
+        f = F.inlined(f0) if f0.kind in ("Fn", "AssocFn") else f0
+        T = None
+        for b, si in fm.enum_switches(f, "node::inner::Inner"):
+            for v, fld in want.items():
+                tgt = si[2].get(v)
+                if tgt is None:
+                    continue
+                region = f.dominated_by(tgt)
+                for cs in f.calls(region):
+                    ga = " ".join(cs.f.get("args", []))
+                    if not cs.args or "merkle::cmr::Cmr" not in ga or cs.name not in ("to_string", "new_display", "new_lower_hex", "fmt", "new_debug"):
+                        continue
+                    T = T or Terms(f)
+                    t = T.operand(cs.args[0])
+                    key = "%s: %s" % (short(f0.path), v)
+                    if key in seen_keys:
+                        continue
+                    seen_keys.add(key)
+                    n += 1
+                    okk = isinstance(t, tuple) and t and t[0] == "field" and t[2] == fld and isinstance(t[1], tuple) and t[1][0] == "as" and t[1][2] == v
+                    if okk:
+                        rep.ok("C09.print", key, "prints the %s payload" % v)
+                    else:
+                        rep.violation("C09.print", key, "in the %s case the printer writes `%s` as the hidden branch root; the root stored in the node is "
+                                      "%s's field %s — re-parsing the text gives a program with a different commitment root"
+                                      % (v, show(t)[:80], v, fld), cs.where())
+    rep.floor("C09.print", n, 2)
 
 
 def _collect_items(rv, used):
